@@ -32,3 +32,28 @@ reg('C01', module='c01', level='exploration',
                  'interpretations with a division by zero are skipped'],
     require={'quick': {'compared': 2000, 'contract_evals': 2000},
              'thorough': {'compared': 20000, 'contract_evals': 20000}})
+
+reg('C02', module='c02', level='exploration',
+    technique=('runtime monitoring: EagerModel.get_value / get_py_value / '
+               'satisfies / [] observed against an independent reference '
+               'evaluator; icontract post-condition on get_value'),
+    rule=('every constant-operand case of the C01 enumerations with the '
+          'constants moved into the model (symbols substituted), plus '
+          'random QF UF-free formulas of every result type with total and '
+          'partial assignments; distinct = (formula key, dropped symbols); '
+          'non-trivial = a value was returned and compared'),
+    level_text=('each model query result is compared with the value the '
+                'reference evaluator computes under the assignment (plus '
+                'documented defaults); no-completion answers are compared '
+                'with up to 8 (all, when finite) completions. Held on the '
+                'executions reported, not a proof.'),
+    level_note='trusts vf/refeval.py; division-by-zero cases are skipped',
+    assumptions=['reference evaluator is the specification of each operator',
+                 'symbols of String/Array sort that are absent from the '
+                 'model have no documented default: an exception is accepted'],
+    require={'quick': {'values_compared': 2000, 'contract_evals': 2000,
+                       'satisfies_compared': 200,
+                       'nocompletion_values_checked': 20},
+             'thorough': {'values_compared': 20000, 'contract_evals': 20000,
+                          'satisfies_compared': 2000,
+                          'nocompletion_values_checked': 200}})
